@@ -98,12 +98,15 @@ theorem stepNG_list (s : Shared) (b : Bool) (ng : NG) :
     ListStep s ng.pend (stepNG s b ng).1 (stepNG s b ng).2.1.pend := by
   cases ng with
   | trav => simp only [stepNG]; refine .same (LSame.refl s) ?_; cases s.head <;> rfl
-  | cc0 n => simp only [stepNG]; refine .same (LSame.refl s) ?_; split <;> rfl
-  | cc1 n => simp only [stepNG]; refine .same (LSame.refl s) ?_; split <;> rfl
-  | cc2 n =>
+  | cc0 n =>
     simp only [stepNG]; split
     · exact .same (LSame.setNode _ _ _ (fun _ => rfl)) rfl
     · exact .same (LSame.refl s) rfl
+  | cc1 n => simp only [stepNG]; exact .same (LSame.refl s) rfl
+  | cc2 n idle =>
+    simp only [stepNG]; split
+    · exact .same (LSame.setNode _ _ _ (fun _ => rfl)) rfl
+    · exact .same (LSame.setFault _ _) rfl
   | claim n =>
     simp only [stepNG]; split
     · exact .same (LSame.setNode _ _ _ (fun _ => rfl)) rfl
